@@ -5,10 +5,12 @@ import (
 	"github.com/netflix/rend/verifshim/vsync"
 	"sort"
 	"strings"
+	"time"
 
 	"github.com/anishathalye/porcupine"
 	"github.com/netflix/rend/handlers"
 	"github.com/netflix/rend/handlers/memcached/chunked"
+	"github.com/netflix/rend/verifshim/vtime"
 
 	"verif/fakemc"
 	"verif/rt"
@@ -32,6 +34,9 @@ type ConcScenario struct {
 	// Points: "backend" = every backend request; "locks" = lock acquisitions (always on when the
 	// configuration is locked).
 	NoBackendPoints bool `json:"noBackendPoints,omitempty"`
+	// Advances: how many times the explorer may let (virtual) time pass while commands are in
+	// flight; only offered while the code under test has timers armed.
+	Advances int `json:"advances,omitempty"`
 }
 
 // HistOp is one completed client operation in the recorded history.
@@ -221,6 +226,15 @@ func runConcWithFault(sc ConcScenario, hf *HandlerFault, prefix []int) (res *Con
 	res.S = s
 	w := NewWorld(sc.Cfg)
 	defer w.Release()
+	var reg *goReg
+	if sc.Advances > 0 {
+		reg = newGoReg()
+		curGoReg = reg
+		defer func() { curGoReg = nil }()
+		vtime.ResetPending()
+		s.TimerPending, s.MaxAdvances, s.AdvanceStep, s.Resolve = vtime.Pending, sc.Advances, time.Second, reg.resolve
+		w.Who = s.Who
+	}
 	// initial state, sequentially and without the scheduler
 	if len(sc.Init) > 0 {
 		s0 := w.Connect(0)
@@ -251,8 +265,13 @@ func runConcWithFault(sc ConcScenario, hf *HandlerFault, prefix []int) (res *Con
 	}
 	if !sc.NoBackendPoints {
 		w.ConnHook = func(tier int, c *fakemc.Conn) {
+			owner := -1
+			if reg != nil {
+				owner = s.Who() // the thread that is connecting
+			}
 			c.Before = func(c *fakemc.Conn, f *fakemc.Frame) {
-				s.Point(fmt.Sprintf("L%d:%s", tier, frameTag(f)), nil)
+				reg.adopt(owner)
+				s.PointFor(owner, fmt.Sprintf("L%d:%s", tier, frameTag(f)), nil)
 			}
 		}
 	}
@@ -262,6 +281,7 @@ func runConcWithFault(sc ConcScenario, hf *HandlerFault, prefix []int) (res *Con
 	for ti, th := range sc.Threads {
 		ti, th := ti, th
 		s.Go(ti, func() {
+			reg.adopt(ti)
 			if hf != nil && ti == 0 {
 				counts := map[int]*int{1: new(int), 2: new(int)}
 				w.WrapHandler = func(tier int, h handlers.Handler) handlers.Handler {
